@@ -266,6 +266,20 @@ def gen_cases(tier, seed):
                 for ch in range(nch):
                     yield dict(kind="interleave", site=site, pair=list(pr), first=first,
                                bound=1 if tier == "quick" else 2, chunk=[ch, nch])
+    # whole operations with two tasks of one Parallel call interleaved (everything the tasks share
+    # - accumulators, buffers, the estimator - stays shared): (site, call index)
+    for site, ncalls in (("tsf_fit_proba", 3), ("tsfr", 2), ("ens_fit", 1), ("stack_fit", 2)):
+        for cno in range(ncalls):
+            for pr in pairs:
+                for first in (0, 1):
+                    yield dict(kind="icall", site=site, call=cno, pair=list(pr), first=first)
+    # bytecode-level hand-over points (read-modify-write inside one statement) for the forest's
+    # predict_proba / predict calls and the ensemble fit, in 6 slices each
+    for site, cno in (("tsf_proba_only", 0), ("tsfr_predict_only", 0), ("ens_fit", 0)):
+        for first in (0, 1):
+            for ch in range(6):
+                yield dict(kind="icall", site=site, call=cno, pair=[0, 1], first=first,
+                           gran="opcode", chunk=[ch, 6])
     if tier != "quick":
         for site in big:  # every single-preemption schedule, in 16 slices
             for pr in pairs[:2]:
@@ -366,6 +380,8 @@ def run_case(case):
         _twin(case, res)
     elif k in ("refit", "reparam"):
         _refit(case, res)
+    elif k == "icall":
+        _icall(case, res)
     elif k == "order":
         _order(case, res)
     else:
@@ -751,6 +767,17 @@ def _site_thunk(site, nj=3):
         P = np.abs(_panel(4, 1)) + 1.0
         return lambda: FittedParamExtractor(ExponentialSmoothing(), ["initial_level"],
                                             n_jobs=nj).fit(_nested(P)).transform(_nested(P))
+    if site in ("tsf_proba_only", "tsfr_predict_only"):
+        import joblib
+
+        nm = "tsf" if site.startswith("tsf_") else "tsfr"
+        Pa, Pb, mk, yv = _cdata(nm, "nested")
+        with joblib.parallel_backend("threading"):
+            fitted = _build_c(nm, 0, 1).fit(mk(Pa), yv.copy())
+        fitted.set_params(n_jobs=nj)
+        if nm == "tsf":
+            return lambda: fitted.predict_proba(mk(Pb))
+        return lambda: fitted.predict(mk(Pb))
     if site in ("iboss_ties", "boss_ties"):
         # exact nearest-neighbour ties: the same series occurs in the training panel under
         # different labels, and several test instances equal it (tie-breaking draws random numbers)
@@ -811,6 +838,41 @@ def _order(case, res):
     if sizes and max(sizes) > 1:
         res.nt((site, tuple(sizes)))
     res.outcome("order:calls=%s" % (sizes,))
+
+
+def _icall(case, res):
+    site = case["site"]
+    tag = "icall:%s:call%d" % (site, case["call"])
+    thunk = _site_thunk(site)
+    ref = call(_site_thunk(site, 1))
+    if not ref.ok:
+        res.violate(tag + ":raises", "site raised sequentially", observed=ref.brief())
+        return
+    n = 0
+    counts = None
+    idx, nch = case.get("chunk", [0, 1])
+    for switches, (ok, val), counts in sched.explore_call_interleavings(
+            thunk, case["call"], tuple(case["pair"]), case["first"], idx=idx, nchunks=nch,
+            cap=1500, granularity=case.get("gran", "line")):
+        n += 1
+        res.transitions += 1
+        if not ok:
+            res.violate(tag + ":raises", "the operation raises under an interleaving of two of its "
+                        "parallel tasks", observed=dict(switches=switches, error=repr(val)[:300]))
+            return
+        if not _eq(val, ref.value):
+            res.violate(tag + ":schedule-dependent", "the result of the whole operation depends on "
+                        "how two of its parallel tasks interleave", expected=ref.value,
+                        observed=dict(switches=switches, result=val))
+            return
+    res.states += n
+    res.evals = n
+    if counts is not None:
+        res.nt((site, case["call"], tuple(case["pair"]), case["first"], case.get("gran"), idx))
+        mine = len(range(1 + idx, counts[case["first"]] + 1, nch)) + 1
+        if n < mine:
+            res.notes.append("CAPPED: icall %s: %d of %d schedules" % (site, n, mine))
+    res.outcome("icall:%s:points=%s" % (site, counts))
 
 
 def _tasks_for(site):
